@@ -229,6 +229,25 @@ class SymExec:
             self.do_if(s)
         elif isinstance(s, (ast.Import, ast.ImportFrom)):
             return
+        elif isinstance(s, ast.For) and not s.orelse and isinstance(s.target, (ast.Name, ast.Tuple)) \
+                and not any(isinstance(n, (ast.Break, ast.Continue)) for b in s.body for n in ast.walk(b)):
+            # a loop over a literal tuple / list (e.g. a hoisted table of terminators): unrolled
+            it = self.expr(s.iter)
+            if it[0] in ('tuple', 'list') and len(it[1]) <= 64:
+                for x in it[1]:
+                    if self.state.dead:
+                        break
+                    self.assign(s.target, x, s)
+                    self.block(s.body)
+                return
+            if is_const(it) and isinstance(it[1], (tuple, list, str, bytes)) and len(it[1]) <= 64:
+                for x in it[1]:
+                    if self.state.dead:
+                        break
+                    self.assign(s.target, C(x), s)
+                    self.block(s.body)
+                return
+            raise Unsupported(s)
         else:
             raise Unsupported(s)
 
